@@ -449,7 +449,12 @@ fn mode_c15(seed: u64) {
         s1.extend(p.ping(77)); s1.extend(p.cmd("releaseStream", 2.0, A::Null, &[s("k")], 0)); s1.extend(p.ack(5)); s1.extend(p.cmd("createStream", 3.0, A::Null, &[], 0));
         let mut s2 = p.cmd("publish", 0.0, A::Null, &[s("k"), s("live")], 1);
         s2.extend(p.ping(78)); s2.extend(p.cmd("FCPublish", 4.0, A::Null, &[s("k")], 0)); s2.extend(p.audio(1, 5, payload(40, 3))); s2.extend(p.cmd("play", 0.0, A::Null, &[s("k2")], 1)); s2.extend(p.ping(79));
-        check_partitions("d/server messages behind a request in the same call, application answers after all input was delivered", &[s1, s2], seed, &["ConnectionRequested", "ping"], &|pc| run_server_deferred(4096, pc));
+        check_partitions("d/server messages behind a request in the same call, application answers after all input was delivered", &[s1.clone(), s2], seed, &["ConnectionRequested", "ping"], &|pc| run_server_deferred(4096, pc));
+        // ... and the same when the request and what follows it are the LAST thing delivered (no later call picks anything up)
+        check_partitions("d'/server connect, ping, unknown command, acknowledgement, createStream as the only input, application answers afterwards", &[s1], seed, &["ConnectionRequested", "ping"], &|pc| run_server_deferred(4096, pc));
+        let mut q = Peer::new();
+        let mut s3 = q.ping(1); s3.extend(q.cmd("connect", 1.0, connect_obj("live", false), &[], 0)); s3.extend(q.cmd("connect", 2.0, connect_obj("other", false), &[], 0)); s3.extend(q.ping(2));
+        check_partitions("d''/server ping, two connect requests, ping as the only input, application answers afterwards", &[s3], seed, &["ConnectionRequested"], &|pc| run_server_deferred(4096, pc));
     }
 
     // (a) SetChunkSize(n) followed by a message longer than the old chunk size
